@@ -68,8 +68,8 @@
        (acc n (word t (- p 4)))
        (= r (pick n (word t (- p 4))))))
 ;;@ axiom B1-mask-is-mod trigger=band32 :: A-BV/B1 (proved in QF_BV, lemma B1): for a power of two n, v & (n-1) = v mod n on 32-bit values
-(assert (forall ((v Int) (n Int)) (! (=> (and (<= 0 v) (< v 4294967296) (ispow2 n)) (= (band32 v (- n 1)) (mod v n))) :pattern ((band32 v (- n 1))))))
+(assert (forall ((v Int) (m Int)) (! (=> (and (<= 0 v) (< v 4294967296) (<= 0 m) (ispow2 (+ m 1))) (= (band32 v m) (mod v (+ m 1)))) :pattern ((band32 v m)))))
 ;;@ axiom B2-pow2-test trigger=band32 :: A-BV/B2 (proved in QF_BV, lemma B2): for 1 <= n < 2^32, n & (n-1) == 0 iff n is a power of two
-(assert (forall ((n Int)) (! (=> (and (<= 1 n) (< n 4294967296)) (= (= (band32 n (- n 1)) 0) (ispow2 n))) :pattern ((band32 n (- n 1))))))
+(assert (forall ((n Int) (m Int)) (! (=> (and (<= 1 n) (< n 4294967296) (= m (- n 1))) (= (= (band32 n m) 0) (ispow2 n))) :pattern ((band32 n m)))))
 ;;@ axiom B0-band-range trigger=band32 :: A-BV: x & y is within [0, min(x,y)] for non-negative operands
 (assert (forall ((x Int) (y Int)) (! (=> (and (<= 0 x) (<= 0 y)) (and (<= 0 (band32 x y)) (<= (band32 x y) x) (<= (band32 x y) y))) :pattern ((band32 x y)))))
